@@ -1,12 +1,244 @@
 import ZipVerif.Basic.Bytes
+import ZipVerif.Basic.Out
+import ZipVerif.Basic.Rs
+import ZipVerif.Spec.Utf8
 /-
-TEMPORARY STUB (replaced when the C19 text model is merged): decoding of raw names/comments to the
-UTF-8 bytes of the decoded Rust `String`.  ASCII passes through in both modes.
+Model of the text handling of the crate (C19):
+* `cp437::to_char` (src/cp437.rs:38-171) and `FromCp437::from_cp437` for `Vec<u8>` / `&[u8]` (lines 14-36),
+* the flag-driven decoding of entry names and comments (src/read.rs `central_header_to_zip_file`:
+  `is_utf8` and the two `match is_utf8`; `read_zipfile_from_stream`: the same for the local header),
+* the writer's length guard (`start_entry`), its choice of the language-encoding flag and the name
+  bytes it stores (src/write.rs `write_local_file_header`, `write_central_directory_header`).
+Decoded text is `List Char` (Lean `Char` = Unicode scalar value = Rust `char`).
 -/
-namespace ZipVerif.Model.Text
 
-/-- UTF-8 bytes of the `String` the reader produces for `raw` (UTF-8 lossy when `isUtf8`, CP437 otherwise). -/
-def decodeToUtf8 (isUtf8 : Bool) (raw : Bytes) : Bytes :=
-  if isUtf8 then raw else raw
+namespace ZipVerif.Model
+open ZipVerif
 
-end ZipVerif.Model.Text
+/-- The `match` of `to_char`: byte → `u32` (`output`).  Arms in source order; the last source arm
+(`0xff`) is the only value left for the wildcard. -/
+def toCharU32 (input : UInt8) : UInt32 :=
+  if input ≤ 0x7f then input.toUInt32   -- `0x00..=0x7f => input as u32`
+  else
+    match input with
+    | 0x80 => 0x00c7
+    | 0x81 => 0x00fc
+    | 0x82 => 0x00e9
+    | 0x83 => 0x00e2
+    | 0x84 => 0x00e4
+    | 0x85 => 0x00e0
+    | 0x86 => 0x00e5
+    | 0x87 => 0x00e7
+    | 0x88 => 0x00ea
+    | 0x89 => 0x00eb
+    | 0x8a => 0x00e8
+    | 0x8b => 0x00ef
+    | 0x8c => 0x00ee
+    | 0x8d => 0x00ec
+    | 0x8e => 0x00c4
+    | 0x8f => 0x00c5
+    | 0x90 => 0x00c9
+    | 0x91 => 0x00e6
+    | 0x92 => 0x00c6
+    | 0x93 => 0x00f4
+    | 0x94 => 0x00f6
+    | 0x95 => 0x00f2
+    | 0x96 => 0x00fb
+    | 0x97 => 0x00f9
+    | 0x98 => 0x00ff
+    | 0x99 => 0x00d6
+    | 0x9a => 0x00dc
+    | 0x9b => 0x00a2
+    | 0x9c => 0x00a3
+    | 0x9d => 0x00a5
+    | 0x9e => 0x20a7
+    | 0x9f => 0x0192
+    | 0xa0 => 0x00e1
+    | 0xa1 => 0x00ed
+    | 0xa2 => 0x00f3
+    | 0xa3 => 0x00fa
+    | 0xa4 => 0x00f1
+    | 0xa5 => 0x00d1
+    | 0xa6 => 0x00aa
+    | 0xa7 => 0x00ba
+    | 0xa8 => 0x00bf
+    | 0xa9 => 0x2310
+    | 0xaa => 0x00ac
+    | 0xab => 0x00bd
+    | 0xac => 0x00bc
+    | 0xad => 0x00a1
+    | 0xae => 0x00ab
+    | 0xaf => 0x00bb
+    | 0xb0 => 0x2591
+    | 0xb1 => 0x2592
+    | 0xb2 => 0x2593
+    | 0xb3 => 0x2502
+    | 0xb4 => 0x2524
+    | 0xb5 => 0x2561
+    | 0xb6 => 0x2562
+    | 0xb7 => 0x2556
+    | 0xb8 => 0x2555
+    | 0xb9 => 0x2563
+    | 0xba => 0x2551
+    | 0xbb => 0x2557
+    | 0xbc => 0x255d
+    | 0xbd => 0x255c
+    | 0xbe => 0x255b
+    | 0xbf => 0x2510
+    | 0xc0 => 0x2514
+    | 0xc1 => 0x2534
+    | 0xc2 => 0x252c
+    | 0xc3 => 0x251c
+    | 0xc4 => 0x2500
+    | 0xc5 => 0x253c
+    | 0xc6 => 0x255e
+    | 0xc7 => 0x255f
+    | 0xc8 => 0x255a
+    | 0xc9 => 0x2554
+    | 0xca => 0x2569
+    | 0xcb => 0x2566
+    | 0xcc => 0x2560
+    | 0xcd => 0x2550
+    | 0xce => 0x256c
+    | 0xcf => 0x2567
+    | 0xd0 => 0x2568
+    | 0xd1 => 0x2564
+    | 0xd2 => 0x2565
+    | 0xd3 => 0x2559
+    | 0xd4 => 0x2558
+    | 0xd5 => 0x2552
+    | 0xd6 => 0x2553
+    | 0xd7 => 0x256b
+    | 0xd8 => 0x256a
+    | 0xd9 => 0x2518
+    | 0xda => 0x250c
+    | 0xdb => 0x2588
+    | 0xdc => 0x2584
+    | 0xdd => 0x258c
+    | 0xde => 0x2590
+    | 0xdf => 0x2580
+    | 0xe0 => 0x03b1
+    | 0xe1 => 0x00df
+    | 0xe2 => 0x0393
+    | 0xe3 => 0x03c0
+    | 0xe4 => 0x03a3
+    | 0xe5 => 0x03c3
+    | 0xe6 => 0x00b5
+    | 0xe7 => 0x03c4
+    | 0xe8 => 0x03a6
+    | 0xe9 => 0x0398
+    | 0xea => 0x03a9
+    | 0xeb => 0x03b4
+    | 0xec => 0x221e
+    | 0xed => 0x03c6
+    | 0xee => 0x03b5
+    | 0xef => 0x2229
+    | 0xf0 => 0x2261
+    | 0xf1 => 0x00b1
+    | 0xf2 => 0x2265
+    | 0xf3 => 0x2264
+    | 0xf4 => 0x2320
+    | 0xf5 => 0x2321
+    | 0xf6 => 0x00f7
+    | 0xf7 => 0x2248
+    | 0xf8 => 0x00b0
+    | 0xf9 => 0x2219
+    | 0xfa => 0x00b7
+    | 0xfb => 0x221a
+    | 0xfc => 0x207f
+    | 0xfd => 0x00b2
+    | 0xfe => 0x25a0
+    | _ => 0x00a0   -- `0xff => 0x00a0`
+
+/-- `to_char`: `::std::char::from_u32(output).unwrap()` — `None` (surrogate or > 0x10FFFF) is a panic. -/
+def toChar (input : UInt8) : Out Char :=
+  match Rs.charFromU32 (toCharU32 input) with
+  | some c => .ok c
+  | none => .panic "cp437::to_char: char::from_u32(output).unwrap()"
+
+/-- `iter().map(to_char).collect::<String>()`: the first panicking byte panics the whole call. -/
+def mapToChar : Bytes → Out (List Char)
+  | [] => .ok []
+  | b :: r =>
+    match toChar b with
+    | .ok c =>
+      match mapToChar r with
+      | .ok cs => .ok (c :: cs)
+      | .err e => .err e
+      | .panic s => .panic s
+    | .err e => .err e
+    | .panic s => .panic s
+
+/-- `self.iter().all(|c| *c < 0x80)` -/
+def allAscii (bs : Bytes) : Bool := bs.all (· < 0x80)
+
+/-- `FromCp437::from_cp437` (both impls have the same shape): all-ASCII input takes the fast path
+`String::from_utf8(self).unwrap()` (a panic site), anything else goes through the table. -/
+def fromCp437 (bs : Bytes) : Out (List Char) :=
+  if allAscii bs then
+    match Spec.utf8Strict bs with
+    | some s => .ok s
+    | none => .panic "from_cp437: from_utf8(self).unwrap()"
+  else mapToChar bs
+
+/-- `let is_utf8 = flags & (1 << 11) != 0;` (both header parsers in read.rs) -/
+def isUtf8Flag (flags : UInt16) : Bool := flags &&& ((1 : UInt16) <<< 11) != 0
+
+/-- Both header parsers in read.rs:
+`match is_utf8 { true => String::from_utf8_lossy(&raw).into_owned(), false => raw.from_cp437() }` -/
+def decodeName (isUtf8 : Bool) (raw : Bytes) : Out (List Char) :=
+  match isUtf8 with
+  | true => .ok (Spec.utf8Lossy raw)
+  | false => fromCp437 raw
+
+/-- The three text fields of `ZipFileData` that `central_header_to_zip_file` fills. -/
+structure NameFields where
+  fileName : List Char
+  fileNameRaw : Bytes
+  fileComment : List Char
+  deriving DecidableEq, Repr
+
+/-- Name and comment of a central header with general-purpose flags `flags` (`central_header_to_zip_file`):
+both decoded under the same flag, the raw name kept as read. -/
+def centralNameFields (flags : UInt16) (nameRaw commentRaw : Bytes) : Out NameFields :=
+  match decodeName (isUtf8Flag flags) nameRaw with
+  | .ok n =>
+    match decodeName (isUtf8Flag flags) commentRaw with
+    | .ok c => .ok ⟨n, nameRaw, c⟩
+    | .err e => .err e
+    | .panic s => .panic s
+  | .err e => .err e
+  | .panic s => .panic s
+
+/-! ### Writer -/
+
+/-- The general-purpose flags of the local and the central header (identical code in both writers):
+`if !file.file_name.is_ascii() { 1u16 << 11 } else { 0 } | if file.encrypted { 1u16 << 0 } else { 0 }`. -/
+def writerFlags (nameBytes : Bytes) (encrypted : Bool) : UInt16 :=
+  (if !Rs.isAscii nameBytes then (1 : UInt16) <<< 11 else 0) |||
+    (if encrypted then (1 : UInt16) <<< 0 else 0)
+
+/-- What the writer stores for a name: the 16-bit length field
+(`file_name.as_bytes().len() as u16`, a *truncating* cast), the bytes
+(`write_all(file_name.as_bytes())`, verbatim) and the flags. -/
+structure StoredName where
+  lenField : UInt16
+  bytes : Bytes
+  flags : UInt16
+  deriving DecidableEq, Repr
+
+/-- `start_entry`: `let name = name.into(); if name.len() > u16::MAX as usize { return
+Err(InvalidArchive("File name is too long")) }` — nothing is written for such a name; otherwise the
+two headers are written from `file_name`.  `name : String` is the UTF-8 encoding of its `char`s
+(std's representation invariant, `Spec.utf8Encode`). -/
+def writerStoreName (name : List Char) (encrypted : Bool := false) : Out StoredName :=
+  let b := Spec.utf8Encode name
+  if b.length > 65535 then .err .invalidArchive
+  else .ok ⟨UInt16.ofNat b.length, b, writerFlags b encrypted⟩
+
+/-- The reader takes `lenField` bytes after the fixed part of the header as the raw name and decodes
+them under the stored flag (no comment is written for entries: `file_comment` is empty). -/
+def readBackName (st : StoredName) : Out NameFields :=
+  centralNameFields st.flags (st.bytes.take st.lenField.toNat) []
+
+end ZipVerif.Model
